@@ -719,7 +719,11 @@ func attributeRaces(prop string, ck chunk, runs []*RunResult) (int, []string) {
 				if strings.HasPrefix(f[1], "runtime.") || strings.HasPrefix(f[1], "internal/") {
 					continue
 				}
-				if strings.Contains(f[2], "/verif/sim/") && !strings.Contains(f[2], "/third_party/") {
+				// (touch is the one instrumented function of the race
+				// scenario: handlers write their group's scratch memory
+				// through it, and a race there is a race of the library's
+				// group serialisation)
+				if strings.Contains(f[2], "/verif/sim/") && !strings.Contains(f[2], "/third_party/") && !strings.HasSuffix(f[1], ".touch") {
 					innerHarness++
 				}
 				break
